@@ -178,6 +178,7 @@ const (
 	EvIndexWrite
 	EvDeref
 	EvStructCopy
+	EvLoopZero // a loop statement was reached and executed zero iterations on this path
 )
 
 var evNames = map[EvKind]string{
@@ -185,7 +186,7 @@ var evNames = map[EvKind]string{
 	EvMapIter: "mapiter", EvMapLen: "maplen", EvFieldRead: "fieldread", EvFieldWrite: "fieldwrite", EvClose: "close",
 	EvRecv: "recv", EvSend: "send", EvGo: "go", EvDefer: "defer", EvReturn: "return", EvEnter: "enter", EvExit: "exit",
 	EvLoopBegin: "loopbegin", EvLoopEnd: "loopend", EvAssign: "assign", EvPanic: "panic", EvUnsupported: "unsupported",
-	EvIndexWrite: "indexwrite", EvDeref: "deref", EvStructCopy: "structcopy",
+	EvIndexWrite: "indexwrite", EvDeref: "deref", EvStructCopy: "structcopy", EvLoopZero: "loopzero",
 }
 
 func (k EvKind) String() string { return evNames[k] }
